@@ -46,15 +46,12 @@ Lemma tet_faces_opposite v0 v1 v2 v3 :
                 length f = 3%nat /\ Permutation (v :: f) C.
 Proof.
   cbn. split; [reflexivity|]. intros i f v Hf Hv.
-  destruct i as [|[|[|[|i]]]]; cbn in Hf, Hv; try discriminate; inversion Hf; inversion Hv; subst;
+  destruct i as [|[|[|[|i]]]]; cbn in Hf, Hv; [| | | |destruct i; discriminate]; inversion Hf; inversion Hv; subst;
     (split; [reflexivity|]).
-  - apply perm_skip. eapply perm_trans; [apply perm_swap|]. apply perm_skip. apply perm_swap.
+  - apply perm_skip. apply perm_skip. apply perm_swap.
   - apply perm_swap.
-  - eapply perm_trans; [apply perm_swap|]. eapply perm_trans; [apply perm_skip, perm_swap|].
-    eapply perm_trans; [apply perm_swap|]. apply perm_skip.
-    eapply perm_trans; [apply perm_skip, perm_swap|]. eapply perm_trans; [apply perm_swap|]. apply Permutation_refl.
-  - eapply perm_trans; [apply perm_swap|]. apply perm_skip. eapply perm_trans; [apply perm_swap|]. apply perm_skip.
-    apply perm_swap.
+  - apply (Permutation_cons_app [v0; v1] [v3]). cbn. apply (Permutation_cons_app [v0; v1] []). cbn. apply perm_swap.
+  - apply (Permutation_cons_app [v0; v1; v2] []). cbn. apply Permutation_refl.
 Qed.
 
 (* a hexahedron contributes 6 quads made of its own vertices *)
@@ -63,7 +60,10 @@ Lemma hex_faces_shape v0 v1 v2 v3 v4 v5 v6 v7 :
   length (cfc_cell_faces C) = 6%nat /\ Forall (fun f => length f = 4%nat /\ incl f C) (cfc_cell_faces C).
 Proof.
   cbn. split; [reflexivity|].
-  repeat constructor; cbn; intros x Hx; cbn in Hx; intuition (subst; cbn; auto 12).
+  repeat (apply Forall_cons;
+          [split; [reflexivity | intros x Hx; cbn in Hx |- *;
+                                 repeat (destruct Hx as [Hx|Hx]; [subst; auto 12|]); contradiction] |]).
+  apply Forall_nil.
 Qed.
 
 (* the index tables describe closed surfaces: every undirected side lies in exactly two faces;
@@ -124,7 +124,7 @@ Theorem faces_thm c r r' : prepare c r = Ok r' ->
 Proof.
   intros H. apply prepare_fields in H as (_ & Hc & Hf & _).
   split; [exact Hf|]. split; [exact Hc|]. split; [apply added_faces_NoDup|].
-  split; [intros f; apply added_faces_In|]. intros Hfst C f HC HfC. rewrite Hf. now apply added_faces_complete.
+  split; [intros f; apply added_faces_In|]. intros Hfst C f HC HfC. rewrite Hf. now apply (added_faces_complete c r C f).
 Qed.
 
 (* ------------------------------------------------------------ cell_faces *)
@@ -164,19 +164,23 @@ Definition ids_of (fs : list (list Z)) (fcs : list (list Z)) : res (list Z) :=
       if true then match face_index fs (keyify f) with Some i => Ok (i :: l) | None => Err EKey end else Ok l))
     (Ok []) fcs.
 
+Lemma ids_of_cons fs f t : ids_of fs (f :: t) =
+  bind (ids_of fs t) (fun l => match face_index fs (keyify f) with Some i => Ok (i :: l) | None => Err EKey end).
+Proof. reflexivity. Qed.
+
 Lemma ids_of_sound fs fcs ids : ids_of fs fcs = Ok ids -> Forall2 (face_ref fs) ids fcs.
 Proof.
-  revert ids; induction fcs as [|f t IH]; cbn; intros ids H.
+  revert ids; induction fcs as [|f t IH]; intros ids H.
   - inversion H. constructor.
-  - destruct (ids_of fs t) as [l|e] eqn:E; cbn in H; [|discriminate].
+  - rewrite ids_of_cons in H. destruct (ids_of fs t) as [l|e] eqn:E; cbn in H; [|discriminate].
     destruct (face_index fs (keyify f)) as [i|] eqn:Ei; [|discriminate]. inversion H; subst.
     constructor; [|now apply IH]. apply face_index_sound in Ei. exact Ei.
 Qed.
 
 Lemma ids_of_total fs fcs : (forall f, In f fcs -> In (keyify f) (map keyify fs)) -> exists ids, ids_of fs fcs = Ok ids.
 Proof.
-  induction fcs as [|f t IH]; cbn; intros H; [eauto|].
-  destruct IH as [l El]; [intros; apply H; now right|]. rewrite El. cbn.
+  induction fcs as [|f t IH]; intros H; [cbn; eauto|].
+  rewrite ids_of_cons. destruct IH as [l El]; [intros; apply H; now right|]. rewrite El. cbn.
   destruct (face_index_from_total 0 (keyify f) fs None) as [j Ej]; [left; apply H; now left|].
   unfold face_index. rewrite Ej. eauto.
 Qed.
@@ -246,7 +250,7 @@ Proof.
   destruct (cf_loop true true (faces (stage5 c r)) (enumerate (cells (stage5 c r)))) as [[el ad]|e] eqn:El; cbn in H; [|discriminate].
   inversion H; subst r'; clear H. cbn in *.
   rewrite stage5_cells in El. apply cf_loop_sound in El as [-> HF]; [|now apply enumerate_cells_ok].
-  split; [reflexivity|]. rewrite flat_map_enumerate in HF. now rewrite <- Hf, stage5_faces in *.
+  split; [reflexivity|]. rewrite flat_map_enumerate in HF. exact HF.
 Qed.
 
 (* with face completion on, construction never fails on tetra/hexa cells *)
